@@ -128,6 +128,94 @@ def client_framing(u: U):
         u.check("C02.frame.req.unsized_is_chunked", te or F4b, "a body of unknown size goes out chunked")
 
 
+@unit("C02", "client.update_body", functions=[f"{RR}:ClientRequest._update_body", f"{RR}:ClientRequest._update_body_from_data",
+                                               f"{RR}:ClientRequest._update_transfer_encoding",
+                                               f"{RR}:ClientRequest._create_writer"], also=("C04",))
+def client_update_body(u: U):
+    """ClientRequest._update_body (the worker of `await request.update_body(...)`, used by client middlewares): from
+    every framing state the constructor can leave behind (chunked flag, compression, Content-Length / Transfer-Encoding
+    header) and for every replacement body (none, sized, unsized) the request is again framed truthfully: never both
+    headers, the writer chunk-frames exactly when the header says so, and a compressed body - whose length on the wire
+    is not the payload's size - is never announced with a Content-Length"""
+    from multidict import CIMultiDict
+
+    compress = (None, "deflate")[u.choose(2, "compress")]
+    chunked0 = (None, False, True)[u.choose(3, "chunked_flag")]
+    te0 = u.choose(2, "had_te_header") == 1
+    cl0 = u.choose(2, "had_cl_header") == 1
+    get_like = u.choose(2, "method.get_like") == 1
+    new_kind = u.choose(3, "new_body")  # 0 none, 1 sized, 2 unsized
+    # pre-state = what __init__ establishes (unit client.framing + _update_content_encoding): compression forces the
+    # chunked flag; the flag and the Transfer-Encoding header agree; never both headers
+    if compress and chunked0 is not True:
+        return
+    if bool(chunked0) != te0 or (te0 and cl0):
+        return
+    headers = CIMultiDict()
+    if cl0:
+        headers["Content-Length"] = "3"
+    if te0:
+        headers["Transfer-Encoding"] = "chunked"
+    if compress:
+        headers["Content-Encoding"] = compress
+
+    class _Payload:
+        size = 5 if new_kind == 1 else None
+        headers = {"Content-Type": "application/octet-stream"}
+
+    body = _Payload() if new_kind else None
+
+    class _Writer:
+        def __init__(self, *a, **k):
+            self.chunking = False
+            self.compression = None
+
+        def enable_chunking(self):
+            self.chunking = True
+
+        def enable_compression(self, c):
+            self.compression = c
+
+    class _Registry:
+        def get(self, data, disposition=None):
+            return data
+
+    class _payload:
+        PAYLOAD_REGISTRY = _Registry()
+        LookupError = LookupError
+
+    req = u.obj("ClientRequest", {"headers": headers, "chunked": chunked0, "method": "GET" if get_like else "POST",
+                                  "GET_METHODS": {"GET", "HEAD", "OPTIONS", "TRACE"}, "_EMPTY_BODY": "EMPTY", "_body": "OLD",
+                                  "_skip_auto_headers": None, "loop": None, "_traces": [], "compress": compress,
+                                  "url": "URL"}, {}, shared=False, real=(RR, "ClientRequest"))
+    u.module_globals[RR] = {"payload": _payload, "FormData": type("FD", (), {}), "StreamWriter": _Writer}
+    u.loop("client_reqrep:ClientRequest._update_body_from_data", 0, unroll=True, bound=3)
+    f = u.load(RR, "ClientRequest._update_body")
+    o1 = u.call(f, req, body)
+    if not o1.ok:
+        u.check("C04.frame.update_body.refusal_is_value_error", isinstance(o1.exc, ValueError), repr(o1))
+        return
+    f3 = u.load(RR, "ClientRequest._create_writer")
+    o3 = u.call(f3, req, "PROTO")
+    u.check("C04.frame.update_body.writer_total", o3.ok, repr(o3))
+    if not o3.ok:
+        return
+    w = o3.value
+    h = fields(req)["headers"]
+    cl, te = "Content-Length" in h, has_chunked(h)
+    wit = {"compress": compress, "chunked_before": chunked0, "new_body": ("none", "sized", "unsized")[new_kind],
+           "headers": dict(h), "writer.chunking": w.chunking, "writer.compression": w.compression}
+    u.check("C04.frame.update_body.not_both", not (cl and te),
+            "after update_body the request never announces Content-Length and Transfer-Encoding: chunked together", witness=wit)
+    u.check("C04.frame.update_body.writer_agrees_with_headers", w.chunking == te,
+            "after update_body the body is chunk-framed exactly when the header says Transfer-Encoding: chunked", witness=wit)
+    u.check("C04.frame.update_body.compressed_body_has_no_length", not (w.compression and new_kind and cl),
+            "a body that goes through the compressor is never announced with the Content-Length of its uncompressed size",
+            witness=wit)
+    if new_kind == 2:
+        u.check("C04.frame.update_body.unsized_is_chunked", te, "an unsized replacement body goes out chunked", witness=wit)
+
+
 @unit("C02", "server.prepare_headers", functions=[f"{WRSP}:StreamResponse._prepare_headers"])
 def server_prepare_headers(u: U):
     """StreamResponse._prepare_headers for every version (1.0 / 1.1), request keep-alive wish, explicit keep_alive
